@@ -34,6 +34,7 @@ import (
 	"verif/internal/oracle"
 	"verif/internal/protomc"
 	"verif/internal/ref"
+	"verif/internal/statehash"
 )
 
 // Dev is one deviation of the deviating node.
@@ -422,6 +423,108 @@ func mutate(wire []byte, dev Dev, ctx *mutCtx) ([]byte, error) {
 	return encode(m)
 }
 
+// ---- crafted (multi-message) deviations ----
+
+// Commitment pairs: the deviator commits to an ALTERED opening (so the hash check passes at the
+// receiver) and later reveals exactly that opening. The opening is read from the deviator's own
+// state by reflection at the moment the commitment is emitted.
+type CommitPair struct {
+	Proto       string // protocol family prefix
+	CommitType  string
+	CommitField string
+	StateField  string // field of the party's temp data holding the de-commitment
+	RevealType  string
+	RevealField string
+}
+
+var CommitPairs = []CommitPair{
+	{"ecdsa-keygen", "KGRound1Message", "commitment", "deCommitPolyG", "KGRound2Message2", "de_commitment"},
+	{"eddsa-keygen", "KGRound1Message", "commitment", "deCommitPolyG", "KGRound2Message2", "de_commitment"},
+	{"ecdsa-signing", "SignRound1Message2", "commitment", "deCommit", "SignRound4Message", "de_commitment"},
+	{"ecdsa-signing", "SignRound5Message", "commitment", "DPower", "SignRound6Message", "de_commitment"},
+	{"ecdsa-signing", "SignRound7Message", "commitment", "DTelda", "SignRound8Message", "de_commitment"},
+	{"eddsa-signing", "SignRound1Message", "commitment", "deCommit", "SignRound2Message", "de_commitment"},
+	{"ecdsa-resharing", "DGRound1Message", "v_commitment", "VD", "DGRound3Message2", "v_decommitment"},
+	{"eddsa-resharing", "DGRound1Message", "v_commitment", "VD", "DGRound3Message2", "v_decommitment"},
+}
+
+// RecommitClasses: alterations of one element (or the shape) of the opening.
+var RecommitClasses = []string{"zero", "one", "plus-one", "q", "2^255", "2^256", "2^63", "2^64-1", "double-width", "drop-last", "append-one", "keep-two"}
+
+func pairFor(scn, revealType string) *CommitPair {
+	for i := range CommitPairs {
+		if strings.HasPrefix(scn, CommitPairs[i].Proto) && CommitPairs[i].RevealType == revealType {
+			return &CommitPairs[i]
+		}
+	}
+	return nil
+}
+
+// alterOpening applies class to element idx (>=1; element 0 is the commitment randomness) of D.
+func alterOpening(D []*big.Int, idx int, class string, ctx *mutCtx) ([]*big.Int, bool) {
+	out := make([]*big.Int, len(D))
+	for i := range D {
+		out[i] = new(big.Int).Set(D[i])
+	}
+	switch class {
+	case "drop-last":
+		if len(out) < 2 {
+			return nil, false
+		}
+		return out[:len(out)-1], true
+	case "append-one":
+		return append(out, big.NewInt(1)), true
+	case "keep-two":
+		if len(out) < 3 {
+			return nil, false
+		}
+		return out[:2], true
+	}
+	if idx >= len(out) {
+		return nil, false
+	}
+	v, ok := ctx.value(class, out[idx].Bytes(), nil)
+	if !ok {
+		return nil, false
+	}
+	out[idx] = new(big.Int).SetBytes(v)
+	return out, true
+}
+
+func setBytesField(wire []byte, field string, val []byte, list [][]byte) ([]byte, error) {
+	m, err := decode(wire)
+	if err != nil {
+		return nil, err
+	}
+	r := m.ProtoReflect()
+	fd := r.Descriptor().Fields().ByName(protoreflect.Name(field))
+	if fd == nil {
+		return nil, fmt.Errorf("no field %s", field)
+	}
+	if fd.IsList() {
+		l := r.Mutable(fd).List()
+		l.Truncate(0)
+		for _, b := range list {
+			l.Append(protoreflect.ValueOfBytes(b))
+		}
+	} else {
+		r.Set(fd, protoreflect.ValueOfBytes(val))
+	}
+	return encode(m)
+}
+
+func getBytesField(wire []byte, field string) ([]byte, error) {
+	m, err := decode(wire)
+	if err != nil {
+		return nil, err
+	}
+	fd := m.ProtoReflect().Descriptor().Fields().ByName(protoreflect.Name(field))
+	if fd == nil || fd.IsList() {
+		return nil, fmt.Errorf("no scalar field %s", field)
+	}
+	return m.ProtoReflect().Get(fd).Bytes(), nil
+}
+
 // ---- execution of one case (worker side) ----
 
 func nodeIndexOf(nw *netrun.Network, pid *tss.PartyID, reporter int) int {
@@ -446,6 +549,10 @@ func Execute(c Case) (out Outcome) {
 	if !ok {
 		out.Panics = append(out.Panics, "unknown scenario "+c.Scenario)
 		return
+	}
+	if c.Dev.MsgType == "<config>" {
+		applyConfigDeviation(&sc.Cfg, c.Deviator, c.Dev.Op)
+		out.Applied = true
 	}
 	nw, err := netrun.New(sc.Cfg)
 	if err != nil {
@@ -495,10 +602,65 @@ func Execute(c Case) (out Outcome) {
 	}
 	altered := map[*netrun.Msg][]byte{}
 	decided := map[*netrun.Msg]bool{}
+	var recommit *CommitPair
+	var recommitD [][]byte // the altered opening, once the commitment has been replaced
+	if strings.HasPrefix(c.Dev.Op, "recommit:") {
+		recommit = pairFor(c.Scenario, c.Dev.MsgType)
+	}
 	for len(q) > 0 {
 		x := q[0]
 		q = q[1:]
 		bz := x.m.Bytes
+		if recommit != nil && x.m.Sender == c.Deviator && !decided[x.m] {
+			switch x.m.Type {
+			case recommit.CommitType:
+				decided[x.m] = true
+				// read the opening from the deviator's state, alter it, commit to the altered one
+				dv := statehash.Field(nw.Nodes[c.Deviator].Party, "temp", recommit.StateField)
+				if dv.IsValid() && dv.CanInterface() {
+					if D, ok := dv.Interface().([]*big.Int); ok && len(D) > 1 {
+						idx := realIndex(c.Dev.Index)
+						if c.Dev.Index >= 1000000 {
+							idx = len(D) - 1
+						} else if c.Dev.Index >= 1000 {
+							idx = len(D) / 2
+						}
+						if idx < 1 {
+							idx = 1
+						}
+						if D2, ok := alterOpening(D, idx, strings.TrimPrefix(c.Dev.Op, "recommit:"), ctx); ok {
+							C2 := common.SHA512_256i(D2...)
+							if nb, err := setBytesField(x.m.Bytes, recommit.CommitField, C2.Bytes(), nil); err == nil {
+								altered[x.m] = nb
+								for _, d := range D2 {
+									b := d.Bytes()
+									if len(b) == 0 {
+										b = []byte{0}
+									}
+									recommitD = append(recommitD, b)
+								}
+							}
+						}
+					}
+				}
+			case recommit.RevealType:
+				decided[x.m] = true
+				if recommitD != nil {
+					if nb, err := setBytesField(x.m.Bytes, recommit.RevealField, nil, recommitD); err == nil {
+						altered[x.m] = nb
+					}
+				}
+			}
+		}
+		if recommit != nil && x.m.Sender == c.Deviator {
+			if nb, ok := altered[x.m]; ok {
+				out.Applied = true
+				bz = nb
+			}
+			res := nw.DeliverRaw(x.to, bz, nw.Nodes[x.m.Sender].ID, x.m.Broadcast, x.m.Ref())
+			push(res.NewMsg)
+			continue
+		}
 		from := nw.Nodes[x.m.Sender].ID
 		bc := x.m.Broadcast
 		if x.m.Sender != c.Deviator && x.m.Type == c.Dev.MsgType {
@@ -513,6 +675,38 @@ func Execute(c Case) (out Outcome) {
 					switch {
 					case strings.HasPrefix(c.Dev.Op, "from-index:"), c.Dev.Op == "flip-flag", c.Dev.Op == "duplicate":
 						altered[x.m] = x.m.Bytes
+					case c.Dev.Op == "neg-sum-others":
+						// the deviator answers with minus the sum of what the others sent in the same field
+						sum := big.NewInt(0)
+						okAll := true
+						for _, o := range nw.Nodes {
+							if o.Idx == c.Deviator || o.Role != nw.Nodes[c.Deviator].Role {
+								continue
+							}
+							found := false
+							for _, em := range o.Emitted {
+								if em.Type == x.m.Type {
+									if v, err := getBytesField(em.Bytes, c.Dev.Field); err == nil {
+										sum.Add(sum, new(big.Int).SetBytes(v))
+										found = true
+									}
+									break
+								}
+							}
+							if !found {
+								okAll = false
+							}
+						}
+						if okAll {
+							v := new(big.Int).Mod(new(big.Int).Neg(sum), ctx.q)
+							b := v.Bytes()
+							if len(b) == 0 {
+								b = []byte{0}
+							}
+							if nb, err := setBytesField(x.m.Bytes, c.Dev.Field, b, nil); err == nil {
+								altered[x.m] = nb
+							}
+						}
 					case strings.HasPrefix(c.Dev.Op, "mirror:"):
 						var src int
 						fmt.Sscanf(c.Dev.Op, "mirror:%d", &src)
@@ -673,6 +867,73 @@ func checkOutputs(sc protomc.Scenario, nw *netrun.Network, deviator int) []strin
 		}
 	}
 	return bad
+}
+
+// applyConfigDeviation: the deviating party is configured with a wrong secret or with parameters
+// copied from another party (node indices: old committee first, each committee sorted by id).
+func applyConfigDeviation(cfg *netrun.Config, deviator int, op string) {
+	sortedIdx := func(ids []*big.Int) []int { // position in sorted order -> index in the slice
+		idx := make([]int, len(ids))
+		for i := range idx {
+			idx[i] = i
+		}
+		sort.Slice(idx, func(a, b int) bool { return ids[idx[a]].Cmp(ids[idx[b]]) < 0 })
+		return idx
+	}
+	switch {
+	case op == "wrong-secret":
+		if cfg.EcKeys != nil {
+			var ids []*big.Int
+			for i := range cfg.EcKeys {
+				ids = append(ids, cfg.EcKeys[i].ShareID)
+			}
+			if deviator < len(ids) {
+				k := sortedIdx(ids)[deviator]
+				cp := append([]eckg.LocalPartySaveData{}, cfg.EcKeys...)
+				cp[k].Xi = new(big.Int).Add(cp[k].Xi, big.NewInt(1))
+				cfg.EcKeys = cp
+			}
+		}
+		if cfg.EdKeys != nil {
+			var ids []*big.Int
+			for i := range cfg.EdKeys {
+				ids = append(ids, cfg.EdKeys[i].ShareID)
+			}
+			if deviator < len(ids) {
+				k := sortedIdx(ids)[deviator]
+				cp := append([]edkg.LocalPartySaveData{}, cfg.EdKeys...)
+				cp[k].Xi = new(big.Int).Add(cp[k].Xi, big.NewInt(1))
+				cfg.EdKeys = cp
+			}
+		}
+	case strings.HasPrefix(op, "dup-params:"):
+		var other int
+		fmt.Sscanf(op, "dup-params:%d", &other)
+		base := 0
+		if cfg.Proto == netrun.EcdsaResharing {
+			base = len(cfg.EcKeys) // new-committee nodes come after the old ones
+		}
+		d, o := deviator-base, other-base
+		if d >= 0 && o >= 0 && d < len(cfg.PreParams) && o < len(cfg.PreParams) {
+			cp := append([]eckg.LocalPreParams{}, cfg.PreParams...)
+			cp[d] = cp[o]
+			cfg.PreParams = cp
+		}
+	}
+}
+
+// ConfigCases: wrong-secret and duplicated-parameter parties for a scenario.
+func ConfigCases(scName string, positions []int, dupWith map[int]int) []Case {
+	var cases []Case
+	for _, p := range positions {
+		if !strings.Contains(scName, "keygen") {
+			cases = append(cases, Case{Scenario: scName, Deviator: p, Dev: Dev{MsgType: "<config>", Index: -1, Op: "wrong-secret"}})
+		}
+	}
+	for d, o := range dupWith {
+		cases = append(cases, Case{Scenario: scName, Deviator: d, Dev: Dev{MsgType: "<config>", Index: -1, Op: fmt.Sprintf("dup-params:%d", o)}})
+	}
+	return cases
 }
 
 // ---- worker protocol ----
@@ -905,6 +1166,33 @@ func EnumerateFieldCases(scName string, deviator int, classes []string, allIdx b
 		}
 	}
 	return cases, slotsByType, nil
+}
+
+// EnumerateCraftedCases: commit-to-an-altered-opening for every commitment pair of the protocol and
+// "responses summing to zero" for the additive broadcast scalars.
+func EnumerateCraftedCases(scName string, deviator int) []Case {
+	var cases []Case
+	for _, cp := range CommitPairs {
+		if !strings.HasPrefix(scName, cp.Proto) {
+			continue
+		}
+		for _, idx := range []int{1, 2, 1000000} {
+			for _, cl := range RecommitClasses {
+				if (cl == "drop-last" || cl == "append-one" || cl == "keep-two") && idx != 1 {
+					continue
+				}
+				cases = append(cases, Case{Scenario: scName, Deviator: deviator, Dev: Dev{MsgType: cp.RevealType, Field: cp.RevealField, Index: idx, Op: "recommit:" + cl}})
+			}
+		}
+	}
+	switch {
+	case strings.HasPrefix(scName, "ecdsa-signing"):
+		cases = append(cases, Case{Scenario: scName, Deviator: deviator, Dev: Dev{MsgType: "SignRound3Message", Field: "theta", Index: -1, Op: "neg-sum-others"}})
+		cases = append(cases, Case{Scenario: scName, Deviator: deviator, Dev: Dev{MsgType: "SignRound9Message", Field: "s", Index: -1, Op: "neg-sum-others"}})
+	case strings.HasPrefix(scName, "eddsa-signing"):
+		cases = append(cases, Case{Scenario: scName, Deviator: deviator, Dev: Dev{MsgType: "SignRound3Message", Field: "s", Index: -1, Op: "neg-sum-others"}})
+	}
+	return cases
 }
 
 func SortedKeys(m map[string]int) []string {
